@@ -35,8 +35,8 @@ RULE = ('Hypothesis draws a logical tape of 1-6 blocks: portable kinds (standard
 ASSUMPTIONS = [
     'TZX carries no signal levels in skoolkit (documented: EAR = pulse index parity): a TZX pause holds the level of the next pulse, and a direct recording is judged as a run-length pulse train relative to the running level, not as absolute levels',
     'the level before the first edge, and anything after the last edge (final pause, final tail pulse), is not compared',
-    'standard-speed blocks with a flag byte 1-127 are generated only when class std-pilot-flag is enabled (skoolkit uses the long pilot only for flag 0; ROM/TZX use it for flag < 128) - candidate finding, see AVOID',
-    'PZX DATA blocks with zero-length symbol pulses at a block boundary (odd run of zero-length pulses first after a pause, or last before a tail pulse) and empty DATA blocks with a tail pulse are avoided - candidate findings, see AVOID',
+    'standard-speed blocks take the long pilot for every flag byte < 128 (ROM/TZX rule; F29, repaired in /repo, is searched again)',
+    'PZX DATA blocks with zero-length symbol pulses at a block boundary (odd run of zero-length pulses first after a pause, or last before a tail pulse) and empty DATA blocks with a tail pulse are avoided - known findings F31/F32, see AVOID',
     'loop repetition counts are >= 1 and loops are not nested or cut by start/stop/skip (TZX specification); zero-length direct recordings are not generated',
     'tape-start/stop/skip always select whole logical blocks (a PZX PULS/DATA/PAUS triple is never split)',
 ]
@@ -852,5 +852,5 @@ def replay(case):
 MANIFEST_ENTRY = {
     'technique': 'model-based differential: an independent logical-tape model (TAP/TZX/PZX serialisers, parsers, waveform and pulse decoder) against skoolkit parsers, writers, get_edges and tapinfo on Hypothesis-generated tapes',
     'level_text': 'Each generated logical tape is written as TAP, TZX and PZX by the reference, parsed and turned into edges by the code path tap2sna uses (with first-edge, polarity, tape start/stop/skip, 48K/128K), and compared with the reference waveform built from the TZX 1.20 / PZX 1.0 specifications, exactly (edge for edge) when no pulse has zero length and as a level step-function otherwise; every reported DataBlock range is cut back into bits by measuring edge distances; the three formats must give identical edge lists; write_tap/write_pzx output is re-read by skoolkit and by the reference parsers; tapinfo and tap2sna --tape-analysis output is checked against the generated parameters on a sixth of the cases.',
-    'level_note': 'Sampled, not exhaustive: data up to 300 bytes (plus 24 tapes with 48-64 KB blocks per quick run). TZX signal levels are judged under skoolkit\'s documented alternating-pulse model (pauses hold the level, direct recordings are relative). Three narrow classes are steered around as candidate findings (flag bytes 1-127 in standard blocks, zero-length DATA symbol pulses at block boundaries, empty DATA blocks with a tail); F12 (asymmetric DATA symbols with a partial last byte) is searched in its own shards.',
+    'level_note': 'Sampled, not exhaustive: data up to 300 bytes (plus 24 tapes with 48-64 KB blocks per quick run). TZX signal levels are judged under skoolkit\'s documented alternating-pulse model (pauses hold the level, direct recordings are relative). Two narrow classes are steered around because they are known findings F31/F32 (zero-length DATA symbol pulses at block boundaries, empty DATA blocks with a tail; reproducers in corpus/C11); the classes of the repaired F12, F29 and F30 are searched again (F12, asymmetric DATA symbols with a partial last byte, in its own shards).',
 }
